@@ -163,6 +163,34 @@ fn main() {
             s.mismatches.push(Mismatch { signature: p.split('"').next().unwrap_or("").to_string() + if p.contains("is accepted") { "wrongly accepted" } else if p.contains("is rejected") { "wrongly rejected" } else { "inconsistent" }, detail: p, case: json!({"s": st}) });
         }
     }
+    // direction B: random longer strings, verdicts recomputed by TLC from Grammar.tla
+    if let Some(trace_path) = std::env::var_os("VERIF_GRAMMAR_TRACE") {
+        use std::io::Write;
+        let mut f = std::io::BufWriter::new(std::fs::File::create(trace_path).unwrap());
+        let n: usize = std::env::var("VERIF_GRAMMAR_RANDOM").ok().and_then(|s| s.parse().ok()).unwrap_or(3000);
+        let alphabet: Vec<&str> = vec!["a", "b", "z", "A", "Q", "Z", "0", "5", "9", ".", "_", "-", "/", "+", " ", "NL", "é", "NUL", "!", "^", "[", "`", "~", ":"];
+        let words = ["app", "config", "sbom", "build", "launch", "store"];
+        for i in 0..n {
+            let mut chars: Vec<String> = if i % 7 == 0 { words[r.usize(..words.len())].chars().map(|c| c.to_string()).collect() } else { vec![] };
+            let safe = i % 3 == 0; // mostly-valid strings so that acceptance is exercised too
+            for _ in 0..r.usize(if chars.is_empty() { 5 } else { 0 }..30) {
+                let c = if safe { alphabet[r.usize(..12)] } else { alphabet[r.usize(..alphabet.len())] };
+                chars.push(c.to_string());
+            }
+            let st = concrete(&chars);
+            writeln!(f, "{}", json!({"kind": "name", "s": chars, "id": st.parse::<BuildpackId>().is_ok(), "process": st.parse::<ProcessType>().is_ok(), "key": st.parse::<ExecDProgramOutputKey>().is_ok(), "layer": st.parse::<LayerName>().is_ok()})).unwrap();
+        }
+        let nums: [u64; 8] = [0, 1, 9, 10, 4294967295, 4294967296, u64::MAX - 1, u64::MAX];
+        for i in 0..n {
+            let mut parts: Vec<String> = (0..[3usize, 3, 3, 2, 1, 4][r.usize(..6)]).map(|_| if r.bool() { nums[r.usize(..8)].to_string() } else { r.u64(..).to_string() }).collect();
+            match i % 9 { 0 => parts[0] = format!("0{}", parts[0]), 1 => parts[0] = format!("+{}", parts[0]), 2 => parts[0] = format!(" {}", parts[0]), 3 => { let l = parts.len() - 1; parts[l].push('a'); } 4 => { let l = parts.len() - 1; parts[l].push(' '); } _ => {} }
+            let st = parts.join(".");
+            let chars: Vec<String> = st.chars().map(|c| c.to_string()).collect();
+            writeln!(f, "{}", json!({"kind": "version", "s": chars, "version": BuildpackVersion::try_from(st.clone()).is_ok(), "api": BuildpackApi::try_from(st.clone()).is_ok()})).unwrap();
+        }
+        f.flush().unwrap();
+        s.extra.insert("random_strings".into(), json!(2 * n));
+    }
     // the compile-time literal macros: one generated crate, one cargo check
     let dir = PathBuf::from(std::env::var("VERIF_SCRATCH").unwrap_or_else(|_| "/dev/shm/verif-scratch".into())).join("macrocheck");
     let _ = std::fs::remove_dir_all(&dir);
